@@ -110,7 +110,7 @@ fn le64(b: &[u8; sim::RLEN], o: usize) -> u64 {
 fn any_dirty(d: &[bool; sim::RLEN], n: usize) -> bool {
     let mut r = false;
     let mut k = 0;
-    while k < 16 {
+    while k < sim::RLEN {
         if k < n && d[k] {
             r = true;
         }
@@ -119,37 +119,58 @@ fn any_dirty(d: &[bool; sim::RLEN], n: usize) -> bool {
     r
 }
 
-/// decode one instruction at the CONCRETE offset `o` of block `b`.
-/// returns (length, transferred); length 0 = undecodable
+/// byte `i` of the block, 0 beyond the modelled bytes (symbolic index made explicit: a 24-way select)
+fn at(b: &[u8; sim::RLEN], i: usize) -> u8 {
+    if i < sim::RLEN {
+        b[i]
+    } else {
+        0
+    }
+}
+fn at32(b: &[u8; sim::RLEN], o: usize) -> u32 {
+    u32::from_le_bytes([at(b, o), at(b, o + 1), at(b, o + 2), at(b, o + 3)])
+}
+
+/// decode one instruction at offset `o` of block `b`; returns (length, transferred); length 0 = undecodable
 fn exec_insn(cpu: &mut Cpu, base: u64, b: &[u8; sim::RLEN], o: usize) -> (usize, bool) {
-    let op = b[o];
-    // optional REX prefix 0x48 (W) / 0x49 (W+B) / 0x41 (B)
-    if op == 0xE9 {
-        let rel = le32(b, o + 1) as i32 as i64 as u64;
+    let (b0, b1, b2) = (at(b, o), at(b, o + 1), at(b, o + 2));
+    if b0 == 0xE9 {
+        let rel = at32(b, o + 1) as i32 as i64 as u64;
         cpu.pc = base.wrapping_add(o as u64).wrapping_add(5).wrapping_add(rel);
         return (5, true);
     }
-    if op == 0xC3 {
+    if b0 == 0xC3 {
         cpu.pc = cpu.ret_addr;
         cpu.rsp = cpu.rsp.wrapping_add(8);
         cpu.returned = true;
         return (1, true);
     }
-    if op == 0xFF && b[o + 1] & 0xF8 == 0xE0 {
+    if b0 == 0x90 {
+        return (1, false); // nop
+    }
+    if b0 == 0xFF && b1 & 0xF8 == 0xE0 {
         // jmp r64 (rax..rdi)
-        let r = (b[o + 1] & 7) as usize;
+        let r = (b1 & 7) as usize;
         cpu.pc = if r == 4 { cpu.rsp } else { cpu.regs[r] };
         return (2, true);
     }
-    if op == 0x41 && b[o + 1] == 0xFF && b[o + 2] & 0xF8 == 0xE0 {
+    if b0 == 0xFF && b1 & 0xF8 == 0xD0 {
+        // call r64: pushes a return address (memory write, rsp moves)
+        let r = (b1 & 7) as usize;
+        cpu.rsp = cpu.rsp.wrapping_sub(8);
+        cpu.wrote_mem = true;
+        cpu.pc = if r == 4 { cpu.rsp } else { cpu.regs[r] };
+        return (2, true);
+    }
+    if b0 == 0x41 && b1 == 0xFF && b2 & 0xF8 == 0xE0 {
         // jmp r8..r15
-        cpu.pc = cpu.regs[8 + (b[o + 2] & 7) as usize];
+        cpu.pc = cpu.regs[8 + (b2 & 7) as usize];
         return (3, true);
     }
-    if (op == 0x48 || op == 0x49) && b[o + 1] & 0xF8 == 0xB8 {
+    if (b0 == 0x48 || b0 == 0x49) && b1 & 0xF8 == 0xB8 {
         // mov r64, imm64
-        let r = (b[o + 1] & 7) as usize + if op == 0x49 { 8 } else { 0 };
-        let v = le64(b, o + 2);
+        let r = (b1 & 7) as usize + if b0 == 0x49 { 8 } else { 0 };
+        let v = (at32(b, o + 2) as u64) | ((at32(b, o + 6) as u64) << 32);
         if r == 4 {
             cpu.rsp = v;
         } else {
@@ -157,10 +178,10 @@ fn exec_insn(cpu: &mut Cpu, base: u64, b: &[u8; sim::RLEN], o: usize) -> (usize,
         }
         return (10, false);
     }
-    if (op == 0x48 || op == 0x49) && b[o + 1] == 0xC7 && b[o + 2] & 0xF8 == 0xC0 {
+    if (b0 == 0x48 || b0 == 0x49) && b1 == 0xC7 && b2 & 0xF8 == 0xC0 {
         // mov r64, sign-extended imm32
-        let r = (b[o + 2] & 7) as usize + if op == 0x49 { 8 } else { 0 };
-        let v = le32(b, o + 3) as i32 as i64 as u64;
+        let r = (b2 & 7) as usize + if b0 == 0x49 { 8 } else { 0 };
+        let v = at32(b, o + 3) as i32 as i64 as u64;
         if r == 4 {
             cpu.rsp = v;
         } else {
@@ -168,28 +189,42 @@ fn exec_insn(cpu: &mut Cpu, base: u64, b: &[u8; sim::RLEN], o: usize) -> (usize,
         }
         return (7, false);
     }
+    if b0 == 0x48 && b1 == 0x83 && (b2 == 0xEC || b2 == 0xC4) {
+        // sub rsp, imm8 / add rsp, imm8
+        let imm = at(b, o + 3) as i8 as i64 as u64;
+        cpu.rsp = if b2 == 0xEC { cpu.rsp.wrapping_sub(imm) } else { cpu.rsp.wrapping_add(imm) };
+        return (4, false);
+    }
     (0, false)
 }
 
-/// Execute the instructions at the start of a block until control is transferred.
-/// A block is at most two instructions (a move followed by a transfer, or a transfer alone);
-/// the second instruction starts at offset 7 or 10, so every offset is concrete.
+/// Execute the instructions at the start of a block until control is transferred (at most 4
+/// instructions, all inside the modelled bytes).
 fn exec_block(cpu: &mut Cpu, base: u64, b: &[u8; sim::RLEN], d: &[bool; sim::RLEN]) -> bool {
-    let (l1, t1) = exec_insn(cpu, base, b, 0);
-    if l1 == 0 {
+    let mut o = 0usize;
+    let mut n = 0;
+    let mut done = false;
+    while n < 4 {
+        if !done && !cpu.bad {
+            let (l, t) = exec_insn(cpu, base, b, o);
+            if l == 0 || o + l > sim::RLEN {
+                cpu.bad = true;
+            } else {
+                o += l;
+                if t {
+                    done = true;
+                }
+            }
+        }
+        n += 1;
+    }
+    if !done {
         cpu.bad = true;
+    }
+    if cpu.bad {
         return false;
     }
-    let mut used = l1;
-    if !t1 {
-        let (l2, t2) = if l1 == 10 { exec_insn(cpu, base, b, 10) } else { exec_insn(cpu, base, b, 7) };
-        if l2 == 0 || !t2 {
-            cpu.bad = true;
-            return false;
-        }
-        used = l1 + l2;
-    }
-    if any_dirty(d, used) {
+    if any_dirty(d, o) {
         cpu.fetched_dirty = true;
     }
     true
